@@ -162,4 +162,28 @@ theorem C07_jalali_2820 : Coherent calJal2820 365 :=
       simp only [monthSum, calJal2820, Jalali.monthLen2, Jalali.monthLenTab]
       by_cases h : Jalali.isLeap2 y = true <;> simp [h])
 
+/-! ### hijri in month-table mode -/
+
+/-- **C07 for hijri in month-table mode**: "the length equalities still hold" — every reported month
+    length is the distance between the first days of consecutive months and the twelve lengths add up
+    to the distance between consecutive year starts, for ALL years and months (in this mode the
+    library computes the length as that distance; the leap flag keeps its arithmetic meaning and is
+    not tied to the year length inside the table) -/
+theorem C07_hijri_table_gaps :
+    (∀ y m, 1 ≤ m → m ≤ 12 →
+      (if m < 12 then calHijT.toJd y (m + 1) 1 else calHijT.toJd (nextYear calHijT y) 1 1) - calHijT.toJd y m 1 = calHijT.monthLen y m) ∧
+    (∀ y, monthSum calHijT y = calHijT.toJd (nextYear calHijT y) 1 1 - calHijT.toJd y 1 1) ∧
+    (∀ y, calHijT.isLeap y = calHijA.isLeap y) := by
+  refine ⟨?_, ?_, fun _ => rfl⟩
+  · intro y m h1 h2
+    simp only [calHijT, nextYear, HijriT.monthLenT, Bool.false_eq_true, false_and, if_false]
+    by_cases h12 : m = 12
+    · subst h12; simp
+    · have : m < 12 := by omega
+      simp [h12, this]
+  · intro y
+    simp only [monthSum, calHijT, nextYear, HijriT.monthLenT, Bool.false_eq_true, false_and, if_false]
+    simp
+    omega
+
 end Starcal.Props
